@@ -302,6 +302,21 @@ def seek_rules(ctx, R41, R42, R34, R36, want_c03=True, want_c04=True, R35s=None)
                             okt = rhs[0] == 'field' and rhs[2] == 'inp' and lhs[0] == 'field' and norm(clo[2][0]) == norm(b)
                         else:
                             why = 'predicate %s' % [fmt(r)[:60] for r in rets]
+                if pos is None and not okt and is_call(tr, 'Iterator::count') and is_call(tr[2][0], 'Iterator::take_while'):
+                    # transitions().take_while(|t| t.inp <= b).count(): the number of leading transitions NOT larger than the bound byte
+                    tw = tr[2][0]
+                    src, clo = tw[2][0], tw[2][1]
+                    if is_call(src, '::transitions') and is_head(src[2][0], {LN}) and clo[0] == 'closure' and clo[1] in lib.fns:
+                        cf = lib.fns[clo[1]]
+                        rets = [q.ret() for q in explore(cf, max_visits=1) if q.end == 'return']
+                        if len(rets) == 1 and rets[0][0] == 'bin' and rets[0][1] in ('Le', 'Lt', 'Ge', 'Gt'):
+                            op, lhs, rhs = rets[0][1], rets[0][2], rets[0][3]
+                            inp_l = lhs[0] == 'field' and lhs[2] == 'inp'
+                            inp_r = rhs[0] == 'field' and rhs[2] == 'inp'
+                            capt = norm(clo[2][0]) == norm(b)
+                            # keep counting while inp <= b  (or b >= inp); `<` would stop ON an equal byte - but an equal byte does not occur here
+                            okt = capt and ((inp_l and op in ('Le', 'Lt')) or (inp_r and op in ('Ge', 'Gt')))
+                            why = 'take_while(%s).count()' % fmt(rets[0])[:60]
                 ctx.check(R34, okt, 'seek-diverge-trans', 'where the bound leaves the FST the frame must resume at the first transition whose byte is larger than the bound byte, or past the end: %s' % why, fn=f, at=at)
         # --- after the loop ---------------------------------------------------------------------
         if it_end is not None and fi is None and p.end == 'return':
